@@ -29,10 +29,47 @@ def Tiles (body : Bytes) : Nat → List Piece → Prop
 
 /-- a client that requests blocks in increasing offset order reassembles exactly
 the body; every non-final piece carries exactly `size` bytes -/
+theorem tiles_reassemble_aux (body : Bytes) (ps : List Piece) :
+    ∀ off, Tiles body off ps → (∀ p ∈ ps, 0 < p.size) →
+      body.take off ++ ps.flatMap (·.chunk) = body ∧
+      (∀ p ∈ ps, p.more = true → p.chunk.length = p.size) := by
+  induction ps with
+  | nil => intro off h; exact absurd h (by simp [Tiles])
+  | cons p rest ih =>
+    intro off h hs
+    cases rest with
+    | nil =>
+      simp only [Tiles] at h
+      obtain ⟨hk, hc, hm⟩ := h
+      have ht := tiling_step body off p.size p.num p.chunk p.more hk hc
+      refine ⟨?_, ?_⟩
+      · simp only [List.flatMap_cons, List.flatMap_nil, List.append_nil]
+        rw [ht.1, ht.2 hm, List.take_length]
+      · intro q hq hqm
+        simp only [List.mem_singleton] at hq
+        subst hq
+        rw [hm] at hqm
+        exact absurd hqm (by simp)
+    | cons q rest' =>
+      simp only [Tiles] at h
+      obtain ⟨hk, hc, hm, hrest⟩ := h
+      have ht := tiling_step body off p.size p.num p.chunk p.more hk hc
+      have hl := chunkAt_length body p.size p.num p.chunk p.more hc (hs p (List.mem_cons_self ..))
+      have ih' := ih (off + p.chunk.length) hrest (fun x hx => hs x (List.mem_cons_of_mem _ hx))
+      refine ⟨?_, ?_⟩
+      · rw [List.flatMap_cons, ← List.append_assoc, ht.1]
+        exact ih'.1
+      · intro x hx hxm
+        rcases List.mem_cons.1 hx with hx | hx
+        · subst hx
+          exact hl.2.1 hxm
+        · exact ih'.2 x hx hxm
+
 theorem tiles_reassemble (body : Bytes) (ps : List Piece) (h : Tiles body 0 ps)
     (hs : ∀ p ∈ ps, 0 < p.size) :
     (ps.flatMap (·.chunk)) = body ∧ (∀ p ∈ ps, p.more = true → p.chunk.length = p.size) := by
-  sorry
+  have := tiles_reassemble_aux body ps 0 h hs
+  simpa using this
 
 /-- fetching blocks 0,1,…,n-1 at one size: the canonical tiling exists for
 every body (including the empty one) -/
@@ -43,9 +80,115 @@ def canonicalPieces (body : Bytes) (size : Nat) : List Piece :=
       chunk := (body.drop (k * size)).take size,
       more := decide ((k + 1) * size < body.length) })
 
+/-- ceiling division: `n = ⌈len / size⌉` for `len > 0` satisfies
+`(n-1)·size < len ≤ n·size` -/
+theorem ceil_div_spec (len size : Nat) (hs : 0 < size) (hl : 0 < len) :
+    ∃ n', (len + size - 1) / size = n' + 1 ∧ n' * size < len ∧ len ≤ (n' + 1) * size := by
+  have h1 := Nat.div_add_mod (len + size - 1) size
+  have h2 := Nat.mod_lt (len + size - 1) hs
+  have h3 : 0 < (len + size - 1) / size := Nat.div_pos (by omega) hs
+  obtain ⟨n', hn'⟩ : ∃ n', (len + size - 1) / size = n' + 1 := ⟨(len + size - 1) / size - 1, by omega⟩
+  refine ⟨n', hn', ?_, ?_⟩
+  · rw [hn', Nat.mul_add, Nat.mul_one, Nat.mul_comm] at h1
+    omega
+  · rw [hn', Nat.mul_add, Nat.mul_one, Nat.mul_comm] at h1
+    rw [Nat.add_mul, Nat.one_mul]
+    omega
+
+def canonPiece (body : Bytes) (size k : Nat) : Piece :=
+  { num := k, size := size,
+    chunk := (body.drop (k * size)).take size,
+    more := decide ((k + 1) * size < body.length) }
+
+theorem canonical_tiles_aux (body : Bytes) (size : Nat) (m : Nat) :
+    ∀ k, (∀ j, k ≤ j → j < k + (m + 1) → j * size < body.length ∨ (j = 0 ∧ body.length = 0)) →
+      (∀ j, k ≤ j → j + 1 < k + (m + 1) → (j + 1) * size < body.length) →
+      body.length ≤ (k + (m + 1)) * size →
+      Tiles body (k * size) ((List.range' k (m + 1)).map (canonPiece body size)) := by
+  induction m with
+  | zero =>
+    intro k H1 H2 H3
+    have hc : chunkAt body size k =
+        some ((body.drop (k * size)).take size, decide ((k + 1) * size < body.length)) := by
+      rcases H1 k (Nat.le_refl _) (by omega) with h | ⟨h0, hl⟩
+      · simp [chunkAt, h]
+      · subst h0
+        have hb : body = [] := List.eq_nil_of_length_eq_zero hl
+        subst hb
+        simp [chunkAt]
+    have hm : ¬ ((k + 1) * size < body.length) := by
+      have : (k + (0 + 1)) * size = (k + 1) * size := by simp
+      omega
+    simp only [Nat.zero_add, List.range'_one, List.map_cons, List.map_nil, Tiles, canonPiece]
+    refine ⟨trivial, hc, ?_⟩
+    simp [hm]
+  | succ m ih =>
+    intro k H1 H2 H3
+    have hmore : (k + 1) * size < body.length := H2 k (Nat.le_refl _) (by omega)
+    have hk : k * size < body.length := by
+      have : (k + 1) * size = k * size + size := by rw [Nat.add_mul, Nat.one_mul]
+      omega
+    have hc : chunkAt body size k =
+        some ((body.drop (k * size)).take size, decide ((k + 1) * size < body.length)) := by
+      simp [chunkAt, hk]
+    have hlen : ((body.drop (k * size)).take size).length = size := by
+      have : (k + 1) * size = k * size + size := by rw [Nat.add_mul, Nat.one_mul]
+      rw [List.length_take, List.length_drop]
+      omega
+    have hrec := ih (k + 1)
+      (fun j h1 h2 => H1 j (by omega) (by omega))
+      (fun j h1 h2 => H2 j (by omega) (by omega))
+      (by have : k + 1 + (m + 1) = k + (m + 1 + 1) := by omega
+          rw [this]; exact H3)
+    rw [List.range'_succ, List.map_cons]
+    rw [List.range'_succ, List.map_cons] at hrec ⊢
+    simp only [Tiles]
+    refine ⟨rfl, hc, by simp [canonPiece, hmore], ?_⟩
+    have : k * size + (canonPiece body size k).chunk.length = (k + 1) * size := by
+      simp only [canonPiece]
+      rw [hlen, Nat.add_mul, Nat.one_mul]
+    rw [this]
+    exact hrec
+
 theorem canonical_tiles (body : Bytes) (size : Nat) (hs : 0 < size) :
     Tiles body 0 (canonicalPieces body size) := by
-  sorry
+  have hcp : canonicalPieces body size =
+      (List.range' 0 (if body.length = 0 then 1 else (body.length + size - 1) / size)).map
+        (canonPiece body size) := by
+    rw [← List.range_eq_range']; rfl
+  rw [hcp]
+  by_cases hl : body.length = 0
+  · have h := canonical_tiles_aux body size 0 0
+      (fun j _ h2 => Or.inr ⟨by omega, hl⟩) (fun j _ h2 => by omega) (by omega)
+    rw [if_pos hl]
+    simpa using h
+  · obtain ⟨n', hn, hlt, hle⟩ := ceil_div_spec body.length size hs (by omega)
+    have h := canonical_tiles_aux body size n' 0
+      (fun j _ h2 => Or.inl (by
+        have : j * size ≤ n' * size := Nat.mul_le_mul_right _ (by omega)
+        omega))
+      (fun j _ h2 => by
+        have : (j + 1) * size ≤ n' * size := Nat.mul_le_mul_right _ (by omega)
+        omega)
+      (by simpa using hle)
+    rw [if_neg hl, hn]
+    simpa using h
+
+theorem firstBlock_bvok (p : Packet) (n : Nat) (b : BlockValue) (h : firstBlock p n = some b) :
+    BvOk b := by
+  unfold firstBlock at h
+  cases hg : p.getFirstOption n with
+  | none => simp [hg] at h
+  | some bs =>
+    simp only [hg] at h
+    rw [C13.dec_spec] at h
+    by_cases hc : bs.length ≤ 3 ∧ beValue bs / 16 ≤ 65535
+    · rw [if_pos hc] at h
+      simp only [Option.some.injEq] at h
+      subst h
+      exact ⟨hc.2, by simp only; omega⟩
+    · rw [if_neg hc] at h
+      simp at h
 
 /-- the follow-up request for block `b2` while `cached` is cached: served from
 the cache with exactly the handler's chunk, and the entry is released iff it was
@@ -65,7 +208,15 @@ theorem follow_up_served (req : Request) (resp : Packet) (st : BlockState) (b2 :
       resp'.payload = chunk ∧ corr resp' = corr resp ∧ resp'.header.code = cached.header.code ∧
       (∃ bs, ({ b2 with more := more } : BlockValue).enc = .ok bs ∧ resp'.getOption block2Num = some [bs]) ∧
       (∀ n, n ≠ block2Num → (cached.getOption n).isSome → resp'.getOption n = cached.getOption n) := by
-  sorry
+  have hok : BvOk b2 := firstBlock_bvok _ _ _ hb
+  obtain ⟨resp', bs, hsc, henc, hpay, hcorr, hcode, hopt, hcopt, _⟩ :=
+    serveCached_spec req resp b2 cached chunk more hr hok hs hcs hck hch
+  have h1 := handleBlock1_pass req M st size hb1 hsz hn
+  have h2 := handleBlock2_cached req st b2 cached hb hc
+  rw [hsc] at h2
+  refine ⟨resp', ?_, hpay, hcorr, hcode, ⟨bs, henc, hopt⟩, hcopt⟩
+  simp only [coreRequest, h1]
+  exact h2
 
 /-! ### uploads (Block1) -/
 
@@ -87,6 +238,107 @@ structure UploadReq (M : Nat) (B : Bytes) (szx i : Nat) (req : Request) : Prop w
   szx7 : szx ≤ 7
   num16 : i ≤ 65535
 
+theorem nBlocks_nonfinal (B : Bytes) (s i : Nat) (hs : 0 < s) (h : i + 1 < nBlocks B s) :
+    (i + 1) * s < B.length := by
+  unfold nBlocks at h
+  by_cases hl : B.length = 0
+  · rw [if_pos hl] at h; omega
+  · rw [if_neg hl] at h
+    obtain ⟨n', hn, hlt, _⟩ := ceil_div_spec B.length s hs (by omega)
+    have : (i + 1) * s ≤ n' * s := Nat.mul_le_mul_right _ (by omega)
+    omega
+
+theorem nBlocks_final (B : Bytes) (s i : Nat) (hs : 0 < s) (h : i + 1 = nBlocks B s) :
+    i * s ≤ B.length ∧ B.length ≤ (i + 1) * s := by
+  unfold nBlocks at h
+  by_cases hl : B.length = 0
+  · rw [if_pos hl] at h
+    have : i = 0 := by omega
+    subst this
+    omega
+  · rw [if_neg hl] at h
+    obtain ⟨n', hn, hlt, hle⟩ := ceil_div_spec B.length s hs (by omega)
+    have : i = n' := by omega
+    subst this
+    omega
+
+theorem size_le_reserve (szx : Nat) (h : szx ≤ 7) : 2 ^ (szx + 4) ≤ Consts.maxUncommittedReserve := by
+  have h1 : 2 ^ (szx + 4) ≤ 2 ^ 11 := Nat.pow_le_pow_right (by omega) (by omega)
+  have h2 : (2 : Nat) ^ 11 = 2048 := by decide
+  have h3 : Consts.maxUncommittedReserve = 16384 := rfl
+  omega
+
+theorem computeMessageSize_ge (p : Packet) (size : Nat) (h : computeMessageSize p = .ok size) :
+    p.payload.length ≤ size := by
+  unfold computeMessageSize at h
+  split at h
+  · simp only [HRes.ok.injEq] at h; omega
+  · simp [internal] at h
+  · simp at h
+
+theorem block1_reply_option (resp : Packet) (hs : resp.options.Sorted) (bs : Bytes) :
+    ((resp.addOption block1Num bs).getOption block1Num).map (·.getLast?) = some (some bs) := by
+  rw [Codec.addOption_get resp hs block1Num block1Num bs]
+  simp
+
+/-- one upload step through `handleBlock1`, given the splice result -/
+theorem upload_step (M : Nat) (B : Bytes) (szx i : Nat) (req : Request) (st : BlockState)
+    (h : UploadReq M B szx i req) (buf' : Bytes)
+    (hsp : extendingSplice (if i = 0 then [] else st.cachedPayload.getD [])
+             (i * 2 ^ (szx + 4)) (i * 2 ^ (szx + 4) + 2 ^ (szx + 4)) (chunkOf B (2 ^ (szx + 4)) i)
+             Consts.maxUncommittedReserve = some buf') :
+    ∃ resp bs more', req.response = some resp ∧ resp.options.Sorted ∧
+      ({ num := i, more := more', szx := szx } : BlockValue).enc = .ok bs ∧
+      handleBlock1 req M st =
+        if decide (i + 1 < nBlocks B (2 ^ (szx + 4))) = true then
+          ({ req with response := some (setCode (resp.addOption block1Num bs) .Continue) },
+           { st with cachedPayload := some buf' }, .ok true)
+        else
+          ({ req with message := { req.message with payload := buf' },
+                      response := some (resp.addOption block1Num bs) },
+           { st with cachedPayload := none }, .ok false) := by
+  obtain ⟨size, hsz, hfit⟩ := h.admits
+  have hms := computeMessageSize_ge _ _ hsz
+  have hr : BvOk { num := i, more := decide (i + 1 < nBlocks B (2 ^ (szx + 4))), szx := szx } :=
+    ⟨h.num16, h.szx7⟩
+  have hneg := negotiate_exact _ size req.message.payload.length M hr hms hfit h.szx7
+  obtain ⟨resp, hresp⟩ := Option.isSome_iff_exists.1 h.resp
+  have hsp' : extendingSplice (if i = 0 then [] else st.cachedPayload.getD [])
+      (i * 2 ^ (szx + 4)) (i * 2 ^ (szx + 4) + 2 ^ (szx + 4)) req.message.payload
+      Consts.maxUncommittedReserve = some buf' := by rw [h.pay]; exact hsp
+  obtain ⟨bs, resp', henc, hresp', hstep⟩ :=
+    handleBlock1_step req M st _ _ size resp buf' h.blk hsz hneg hresp ⟨h.num16, h.szx7⟩ hsp'
+  subst hresp'
+  exact ⟨resp, bs, _, hresp, h.rsorted resp hresp, henc, hstep⟩
+
+theorem serveCached_messageT (req : Request) (rb2 : BlockValue) (cached : Packet) :
+    (serveCached req rb2 cached).1.message = req.message := by
+  unfold serveCached
+  repeat' split
+  all_goals rfl
+
+/-- `handleBlock2` touches neither the request message nor the upload buffer -/
+theorem handleBlock2_frameT (req : Request) (st : BlockState) :
+    (handleBlock2 req st).1.message = req.message ∧
+    (handleBlock2 req st).2.1.cachedPayload = st.cachedPayload := by
+  unfold handleBlock2
+  simp only
+  split
+  · rename_i b2 cached _ _
+    have hm := serveCached_messageT req b2 cached
+    split
+    · rename_i req' more heq
+      rw [heq] at hm
+      refine ⟨hm, ?_⟩
+      split <;> rfl
+    · rename_i req' c heq
+      rw [heq] at hm
+      exact ⟨hm, rfl⟩
+    · rename_i req' heq
+      rw [heq] at hm
+      exact ⟨hm, rfl⟩
+  · exact ⟨rfl, rfl⟩
+
 /-- a non-final block – first delivery or consecutive re-delivery, and for block
 0 whatever an abandoned upload left in the buffer – is answered 2.31 Continue
 with a Block1 option echoing its number and the client's size, does not reach
@@ -103,7 +355,34 @@ theorem upload_nonfinal (M : Nat) (B : Bytes) (szx i : Nat) (req : Request) (st 
       ({ num := i, more := more', szx := szx } : BlockValue).enc = .ok bs ∧
       (resp'.getOption block1Num).map (·.getLast?) = some (some bs) ∧
       req'.message = req.message := by
-  sorry
+  have hs : 0 < 2 ^ (szx + 4) := Nat.two_pow_pos _
+  have hR := size_le_reserve szx h.szx7
+  have hlt := nBlocks_nonfinal B _ i hs hnf
+  generalize hsdef : 2 ^ (szx + 4) = s at *
+  have hmul : (i + 1) * s = i * s + s := by rw [Nat.add_mul, Nat.one_mul]
+  have hsp : extendingSplice (if i = 0 then [] else st.cachedPayload.getD [])
+      (i * s) (i * s + s) (chunkOf B s i) Consts.maxUncommittedReserve = some (B.take (i * s + s)) := by
+    by_cases hi : i = 0
+    · rw [if_pos hi]
+      have := splice_in_order B s i Consts.maxUncommittedReserve hs hR (by omega)
+      rw [hi] at this ⊢
+      simpa [chunkOf] using this
+    · rw [if_neg hi]
+      rcases hbuf with h0 | hb | hb
+      · exact absurd h0 hi
+      · rw [hb]
+        exact splice_in_order B s i Consts.maxUncommittedReserve hs hR (by omega)
+      · rw [hb, hmul]
+        exact splice_duplicate B s i Consts.maxUncommittedReserve hs hR (by omega)
+  subst hsdef
+  obtain ⟨resp, bs, more', hresp, hsorted, henc, hstep⟩ := upload_step M B szx i req st h _ hsp
+  rw [decide_eq_true hnf, if_pos rfl] at hstep
+  refine ⟨{ req with response := some (setCode (resp.addOption block1Num bs) .Continue) },
+    { st with cachedPayload := some (B.take (i * 2 ^ (szx + 4) + 2 ^ (szx + 4))) },
+    setCode (resp.addOption block1Num bs) .Continue, bs, more', ?_, ?_, rfl, rfl, rfl, henc, ?_, rfl⟩
+  · simp only [coreRequest, hstep]
+  · rw [Nat.add_mul, Nat.one_mul]
+  · exact block1_reply_option resp hsorted bs
 
 /-- the final block hands the application the complete body and its reply
 carries the Block1 acknowledgement; the buffer is released -/
@@ -118,7 +397,47 @@ theorem upload_final (M : Nat) (B : Bytes) (szx i : Nat) (req : Request) (st : B
         (coreRequest M req st).1.response = some resp' ∧
         ({ num := i, more := more', szx := szx } : BlockValue).enc = .ok bs ∧
         (resp'.getOption block1Num).map (·.getLast?) = some (some bs)) := by
-  sorry
+  have hs : 0 < 2 ^ (szx + 4) := Nat.two_pow_pos _
+  have hR := size_le_reserve szx h.szx7
+  obtain ⟨hlo, hhi⟩ := nBlocks_final B _ i hs hf
+  generalize hsdef : 2 ^ (szx + 4) = s at *
+  have hmul : (i + 1) * s = i * s + s := by rw [Nat.add_mul, Nat.one_mul]
+  have htake : B.take (i * s + s) = B := List.take_of_length_le (by omega)
+  have hsp : extendingSplice (if i = 0 then [] else st.cachedPayload.getD [])
+      (i * s) (i * s + s) (chunkOf B s i) Consts.maxUncommittedReserve = some B := by
+    by_cases hi : i = 0
+    · rw [if_pos hi]
+      have := splice_in_order B s i Consts.maxUncommittedReserve hs hR (by omega)
+      rw [htake] at this
+      rw [hi] at this ⊢
+      simpa [chunkOf] using this
+    · rw [if_neg hi]
+      rcases hbuf with h0 | hb
+      · exact absurd h0 hi
+      · rw [hb]
+        have := splice_in_order B s i Consts.maxUncommittedReserve hs hR (by omega)
+        rw [htake] at this
+        exact this
+  subst hsdef
+  obtain ⟨resp, bs, more', hresp, hsorted, henc, hstep⟩ := upload_step M B szx i req st h _ hsp
+  have hnd : ¬ (i + 1 < nBlocks B (2 ^ (szx + 4))) := by omega
+  rw [decide_eq_false hnd, if_neg (by simp)] at hstep
+  have hcore : coreRequest M req st =
+      handleBlock2 { req with message := { req.message with payload := B },
+                              response := some (resp.addOption block1Num bs) }
+        { st with cachedPayload := none } := by
+    simp only [coreRequest, hstep]
+  rw [hcore]
+  refine ⟨?_, ?_, ?_⟩
+  · rw [(handleBlock2_frameT _ _).1]
+  · rw [(handleBlock2_frameT _ _).2]
+  · intro hpass
+    have hp := handleBlock2_pass
+      { req with message := { req.message with payload := B },
+                 response := some (resp.addOption block1Num bs) }
+      { st with cachedPayload := none } hpass
+    rw [hp]
+    exact ⟨_, bs, more', rfl, rfl, henc, block1_reply_option resp hsorted bs⟩
 
 /-- in-order upload with consecutive duplicates: deliveries are pairs (block
 index, request); the indices start at 0 and each next one repeats or advances
@@ -135,6 +454,50 @@ def runCore (M : Nat) : BlockState → List (Nat × Request) → BlockState × L
     let (st', outs) := runCore M out.2.1 rest
     (st', (out.1, out.2.2) :: outs)
 
+theorem runCore_cons (M : Nat) (st : BlockState) (j : Nat) (r : Request) (rest : List (Nat × Request)) :
+    runCore M st ((j, r) :: rest) =
+      ((runCore M (coreRequest M r st).2.1 rest).1,
+       ((coreRequest M r st).1, (coreRequest M r st).2.2) ::
+         (runCore M (coreRequest M r st).2.1 rest).2) := by
+  rfl
+
+theorem last_cons (x : Nat × Request) (rest : List (Nat × Request)) (j : Nat) :
+    (((x :: rest).getLast?.map (·.1)).getD j) = ((rest.getLast?.map (·.1)).getD x.1) := by
+  rw [List.getLast?_cons]
+  cases rest.getLast? <;> rfl
+
+theorem upload_run_aux (M : Nat) (B : Bytes) (szx : Nat) (ds : List (Nat × Request)) :
+    ∀ (st : BlockState) (j : Nat), InOrder j ds →
+      (∀ x ∈ ds, UploadReq M B szx x.1 x.2 ∧ x.1 + 1 < nBlocks B (2 ^ (szx + 4))) →
+      st.cachedPayload = some (B.take ((j + 1) * 2 ^ (szx + 4))) →
+      (runCore M st ds).1.cachedPayload =
+          some (B.take (((ds.getLast?.map (·.1)).getD j + 1) * 2 ^ (szx + 4))) ∧
+      ∀ o ∈ (runCore M st ds).2, o.2 = .ok true := by
+  induction ds with
+  | nil =>
+    intro st j _ _ hb
+    exact ⟨hb, fun o ho => absurd ho (by simp [runCore])⟩
+  | cons x rest ih =>
+    intro st j hord hreq hb
+    obtain ⟨j', r⟩ := x
+    obtain ⟨hj, hord'⟩ := hord
+    obtain ⟨hu, hnf⟩ := hreq (j', r) (List.mem_cons_self ..)
+    have hbuf : j' = 0 ∨ st.cachedPayload.getD [] = B.take (j' * 2 ^ (szx + 4)) ∨
+        st.cachedPayload.getD [] = B.take ((j' + 1) * 2 ^ (szx + 4)) := by
+      rw [hb]
+      rcases hj with hj | hj
+      · subst hj; exact Or.inr (Or.inr rfl)
+      · subst hj; exact Or.inr (Or.inl rfl)
+    obtain ⟨req', st', resp', bs, more', hcore, hbuf', _⟩ :=
+      upload_nonfinal M B szx j' r st hu hnf hbuf
+    have hrest := ih st' j' hord' (fun x hx => hreq x (List.mem_cons_of_mem _ hx)) hbuf'
+    rw [runCore_cons, hcore, last_cons]
+    refine ⟨hrest.1, ?_⟩
+    intro o ho
+    rcases List.mem_cons.1 ho with ho | ho
+    · rw [ho]
+    · exact hrest.2 o ho
+
 /-- after any in-order sequence of non-final deliveries starting with block 0 –
 each possibly delivered more than once in a row, and regardless of what an
 earlier abandoned upload left behind – every delivery was answered `ok true`
@@ -146,6 +509,21 @@ theorem upload_prefix (M : Nat) (B : Bytes) (szx : Nat) (st0 : BlockState)
     let last := ((d :: ds).getLast?.map (·.1)).getD 0
     (runCore M st0 (d :: ds)).1.cachedPayload = some (B.take ((last + 1) * 2 ^ (szx + 4))) ∧
     ∀ o ∈ (runCore M st0 (d :: ds)).2, o.2 = .ok true := by
-  sorry
+  obtain ⟨j0, r0⟩ := d
+  simp only at h0
+  subst h0
+  have hord' : InOrder 0 ds := hord.2
+  obtain ⟨hu, hnf⟩ := hreq (0, r0) (List.mem_cons_self ..)
+  obtain ⟨req', st', resp', bs, more', hcore, hbuf', _⟩ :=
+    upload_nonfinal M B szx 0 r0 st0 hu hnf (Or.inl rfl)
+  have hrest := upload_run_aux M B szx ds st' 0 hord'
+    (fun x hx => hreq x (List.mem_cons_of_mem _ hx)) hbuf'
+  rw [runCore_cons, hcore]
+  simp only [last_cons]
+  refine ⟨hrest.1, ?_⟩
+  intro o ho
+  rcases List.mem_cons.1 ho with ho | ho
+  · rw [ho]
+  · exact hrest.2 o ho
 
 end CoapLite.Block
